@@ -24,6 +24,7 @@ OBLIGATION_MSGS = (
     "may fail to meet",
     "cannot show invariant holds",
     "loop invariant",
+    "fails to satisfy",
 )
 RESOURCE_MSGS = ("rlimit", "resource limit", "timed out", "timeout", "smt solver", "z3 ")
 
